@@ -1,4 +1,652 @@
-//! C10 — stub, replaced when the property's harness lands.
-use crate::util::{Em, Rng};
+//! C10 — Gaussian mixture: a fitted model is a valid mixture and yields valid probabilities.
+//!
+//! EM itself is not modelled.  The harness fits with the real API on generated blobs
+//! (separated / overlapping / anisotropic / duplicated points / with an outlier; 1..6 features;
+//! both initialisers), checks the property's predicate on the fitted model (`#fit`, oracle only)
+//! and then ties the two steps the model *does* contain to the real code, from the fitted
+//! parameters:
+//!   estep   (weights, means, precisions_chol, X)  -> log_prob_norm, log_resp      (hook)
+//!   mstep   (X, resp, reg)                        -> nk, weights, means, covariances | EmptyCluster (hook)
+//!   prec    precisions_chol                       -> precisions                    (hook)
+//!   proba   (parameters, queries near + 10..1e6 sigma away) -> predict_proba       (public API)
+//!   predict same                                  -> predict labels, decision margin
+//! Floats that went through matrixmultiply / unrolled sums / libm carry `~`.
+use crate::util::*;
+use linfa::traits::{Fit, Predict};
+use linfa::DatasetBase;
+use linfa_clustering::verif_hooks_c10 as hk;
+use linfa_clustering::{GaussianMixtureModel, GmmError, GmmInitMethod};
+use ndarray::{Array1, Array2, Array3, Axis};
+use rand::SeedableRng;
+use rand_xoshiro::Xoshiro256Plus;
+use std::panic::{catch_unwind, AssertUnwindSafe};
 
-pub fn run(_em: &mut Em, _rng: &mut Rng) {}
+type Gmm = GaussianMixtureModel<f64>;
+
+fn th(x: f64) -> String {
+    format!("~{}", hex64c(x))
+}
+fn m2(a: &Array2<f64>) -> String {
+    list2(a.rows().into_iter().map(|r| r.to_vec()), |x| hex64(x))
+}
+fn m2t(a: &Array2<f64>) -> String {
+    list2(a.rows().into_iter().map(|r| r.to_vec()), |x| th(x))
+}
+fn m3(a: &Array3<f64>) -> String {
+    list3(a.outer_iter().map(|m| m.rows().into_iter().map(|r| r.to_vec()).collect::<Vec<_>>()), |x| hex64(x))
+}
+fn m3t(a: &Array3<f64>) -> String {
+    list3(a.outer_iter().map(|m| m.rows().into_iter().map(|r| r.to_vec()).collect::<Vec<_>>()), |x| th(x))
+}
+/// scale-free presentation of a stack of (nearly) symmetric matrices: the diagonals, and the
+/// off-diagonal entries divided by sqrt(m_aa * m_bb) (rounding of an inner product is bounded
+/// relative to that product of norms, not relative to the entry itself)
+fn diag_corr(a: &Array3<f64>) -> (String, String) {
+    let d = a.dim().1;
+    let dg = list2(a.outer_iter().map(|m| (0..d).map(|i| m[[i, i]]).collect::<Vec<_>>()), |x| th(x));
+    let cc = list3(
+        a.outer_iter().map(|m| (0..d).map(|i| (0..d).map(|j| if i == j { 1.0 } else { m[[i, j]] / (m[[i, i]] * m[[j, j]]).sqrt() }).collect::<Vec<_>>()).collect::<Vec<_>>()),
+        |x| th(x),
+    );
+    (dg, cc)
+}
+fn v1(a: &Array1<f64>) -> String {
+    list(a.iter().copied(), |x| hex64(x))
+}
+fn v1t(a: &Array1<f64>) -> String {
+    list(a.iter().copied(), |x| th(x))
+}
+
+fn gauss(rng: &mut Rng) -> f64 {
+    let u1 = (rng.unit() + 1e-300).max(1e-300);
+    let u2 = rng.unit();
+    (-2.0 * u1.ln()).sqrt() * (2.0 * std::f64::consts::PI * u2).cos()
+}
+/// round to a multiple of 2^-10 so request values stay short of pathological bit patterns
+fn q(x: f64) -> f64 {
+    (x * 1024.0).round() / 1024.0
+}
+
+struct Blobs {
+    kind: &'static str,
+    x: Array2<f64>,
+}
+
+fn gen_blobs(rng: &mut Rng, d: usize, k: usize, per: usize) -> Blobs {
+    let kind = *rng.pick(&["separated", "separated", "overlapping", "anisotropic", "anisotropic", "duplicates", "outlier", "scaled"]);
+    let scale = if kind == "scaled" { *rng.pick(&[1e-3, 1.0 / 64.0, 16.0]) } else { 1.0 };
+    let sep = match kind {
+        "overlapping" => 1.0 + 1.5 * rng.unit(),
+        _ => 8.0 + 20.0 * rng.unit(),
+    };
+    let mut rows: Vec<Vec<f64>> = vec![];
+    for c in 0..k {
+        let centre: Vec<f64> = (0..d).map(|_| sep * (rng.unit() * 2.0 - 1.0) * (k as f64).sqrt() + if d == 1 { sep * c as f64 } else { 0.0 }).collect();
+        // per-axis scales and a random mixing matrix for anisotropy
+        let ax: Vec<f64> = (0..d).map(|_| if kind == "anisotropic" { 0.2 * (25.0f64).powf(rng.unit()) } else { 0.6 + 0.8 * rng.unit() }).collect();
+        let mix: Vec<Vec<f64>> = (0..d).map(|i| (0..d).map(|j| if i == j { 1.0 } else if kind == "anisotropic" { 0.8 * (rng.unit() * 2.0 - 1.0) } else { 0.0 }).collect()).collect();
+        let cnt = if per > 4 { per - 2 + rng.below(5) } else { per };
+        for _ in 0..cnt {
+            let z: Vec<f64> = (0..d).map(|j| ax[j] * gauss(rng)).collect();
+            let mut p: Vec<f64> = (0..d).map(|i| centre[i] + (0..d).map(|j| mix[i][j] * z[j]).sum::<f64>()).collect();
+            if kind == "duplicates" {
+                for v in p.iter_mut() {
+                    *v = v.round();
+                }
+            }
+            rows.push(p.iter().map(|v| q(*v) * scale).collect());
+        }
+    }
+    if kind == "duplicates" {
+        // repeat some rows verbatim
+        for _ in 0..rows.len() / 3 {
+            let r = rows[rng.below(rows.len())].clone();
+            rows.push(r);
+        }
+    }
+    if kind == "outlier" {
+        let far = *rng.pick(&[60.0, 300.0, 5000.0]);
+        let r: Vec<f64> = (0..d).map(|_| q(far * (rng.unit() + 0.5))).collect();
+        rows.push(r);
+    }
+    rng.shuffle(&mut rows);
+    let n = rows.len();
+    let x = Array2::from_shape_fn((n, d), |(i, j)| rows[i][j]);
+    Blobs { kind, x }
+}
+
+// ---------------------------------------------------------------- first-principles helpers
+
+fn all_finite<'a>(it: impl IntoIterator<Item = &'a f64>) -> bool {
+    it.into_iter().all(|x| x.is_finite())
+}
+
+/// smallest eigenvalue of a symmetric matrix (cyclic Jacobi), d <= 8
+fn lambda_min(a: &Array2<f64>) -> f64 {
+    let d = a.nrows();
+    let mut m: Vec<Vec<f64>> = (0..d).map(|i| (0..d).map(|j| 0.5 * (a[[i, j]] + a[[j, i]])).collect()).collect();
+    for _sweep in 0..60 {
+        let mut off = 0.0;
+        for i in 0..d {
+            for j in 0..d {
+                if i != j {
+                    off += m[i][j] * m[i][j];
+                }
+            }
+        }
+        if off == 0.0 {
+            break;
+        }
+        for p in 0..d {
+            for r in p + 1..d {
+                if m[p][r] == 0.0 {
+                    continue;
+                }
+                let theta = (m[r][r] - m[p][p]) / (2.0 * m[p][r]);
+                let t = theta.signum() / (theta.abs() + (theta * theta + 1.0).sqrt());
+                let t = if theta == 0.0 { 1.0 } else { t };
+                let c = 1.0 / (t * t + 1.0).sqrt();
+                let s = t * c;
+                for i in 0..d {
+                    let (a_ip, a_ir) = (m[i][p], m[i][r]);
+                    m[i][p] = c * a_ip - s * a_ir;
+                    m[i][r] = s * a_ip + c * a_ir;
+                }
+                for i in 0..d {
+                    let (a_pi, a_ri) = (m[p][i], m[r][i]);
+                    m[p][i] = c * a_pi - s * a_ri;
+                    m[r][i] = s * a_pi + c * a_ri;
+                }
+            }
+        }
+    }
+    (0..d).map(|i| m[i][i]).fold(f64::INFINITY, f64::min)
+}
+
+fn maxabs(a: &Array2<f64>) -> f64 {
+    a.iter().fold(0.0f64, |m, x| m.max(x.abs()))
+}
+
+/// the "valid mixture" half of the statement, on explicit parameters
+fn oracle_params(ctx: &mut Ctx, class: &str, strict_pd: bool, x: &Array2<f64>, reg: f64, w: &Array1<f64>, mu: &Array2<f64>, cov: &Array3<f64>, prec: Option<&Array3<f64>>) {
+    let (n, d) = x.dim();
+    let k = w.len();
+    let fin = all_finite(w.iter()) && all_finite(mu.iter()) && all_finite(cov.iter()) && prec.map_or(true, |p| all_finite(p.iter()));
+    ctx.require(fin, "params_finite", class, || format!("non-finite parameter in a returned model: w={:?} mu={:?}", w, mu));
+    if !fin {
+        return;
+    }
+    ctx.require(mu.dim() == (k, d) && cov.dim() == (k, d, d), "shapes", class, || format!("means {:?} covariances {:?} for k={} d={}", mu.dim(), cov.dim(), k, d));
+    ctx.require(w.iter().all(|v| *v > 0.0), "weights_pos", class, || format!("weights {:?}", w));
+    let s: f64 = w.iter().sum();
+    ctx.require((s - 1.0).abs() <= 1e-9, "weights_sum_one", class, || format!("weights {:?} sum to {:e}", w, s));
+    // bounding box
+    for c in 0..d {
+        let col = x.column(c);
+        let lo = col.iter().cloned().fold(f64::INFINITY, f64::min);
+        let hi = col.iter().cloned().fold(f64::NEG_INFINITY, f64::max);
+        let slack = 1e-9 * (hi - lo).max(lo.abs()).max(hi.abs()).max(1e-300);
+        for j in 0..k {
+            let m = mu[[j, c]];
+            ctx.require(m >= lo - slack && m <= hi + slack, "means_in_bbox", class, || format!("mean[{}][{}]={:e} outside [{:e},{:e}] (n={})", j, c, m, lo, hi, n));
+        }
+    }
+    for j in 0..k {
+        let cj = cov.index_axis(Axis(0), j).to_owned();
+        let scale = maxabs(&cj).max(1e-300);
+        let mut asym = 0.0f64;
+        for a in 0..d {
+            for b in 0..d {
+                asym = asym.max((cj[[a, b]] - cj[[b, a]]).abs());
+            }
+        }
+        ctx.require(asym <= 1e-12 * scale, "cov_symmetric", class, || format!("covariance {} asymmetric by {:e} (scale {:e})", j, asym, scale));
+        for a in 0..d {
+            ctx.require(cj[[a, a]] >= reg * (1.0 - 1e-12), "cov_diag_ge_reg", class, || format!("covariance {} diagonal {} = {:e} < reg {:e}", j, a, cj[[a, a]], reg));
+        }
+        let lm = lambda_min(&cj);
+        // v'Σv >= reg |v|^2 for every M-step (theorem cov_pd) ...
+        ctx.require(lm >= reg * (1.0 - 1e-9) - 1e-12 * scale, "cov_pd", class, || format!("covariance {} smallest eigenvalue {:e}, reg {:e}, scale {:e}", j, lm, reg, scale));
+        // ... and strictly positive definite for a fitted model (its Cholesky factorisation was accepted).
+        // An eigenvalue within the resolution of this oracle (64 eps * largest entry) of zero means the returned covariance is singular to working precision.
+        if strict_pd && lm <= 64.0 * f64::EPSILON * scale && lm >= -1e-12 * scale {
+            ctx.fail("cov_pd_singular", class, format!("fit returned a covariance that is singular to working precision: component {} smallest eigenvalue {:e}, largest entry {:e}, reg {:e}; data {:?}", j, lm, scale, reg, if x.len() <= 36 { x.rows().into_iter().map(|r| r.to_vec()).collect::<Vec<_>>() } else { vec![] }));
+        }
+        if let Some(p) = prec {
+            let pj = p.index_axis(Axis(0), j).to_owned();
+            let prod = pj.dot(&cj);
+            let mut res = 0.0f64;
+            for a in 0..d {
+                for b in 0..d {
+                    res = res.max((prod[[a, b]] - if a == b { 1.0 } else { 0.0 }).abs());
+                }
+            }
+            // backward-error bound: rounding of an inverse scales with the condition number
+            let cond = (d as f64) * maxabs(&pj) * scale;
+            ctx.require(res <= 1e-10 * cond.max(1.0), "precision_is_inverse", class, || format!("|P*Sigma - I| = {:e} for component {} (cond ~ {:e})", res, j, cond));
+            let mut pas = 0.0f64;
+            for a in 0..d {
+                for b in 0..d {
+                    pas = pas.max((pj[[a, b]] - pj[[b, a]]).abs());
+                }
+            }
+            ctx.require(pas <= 1e-12 * maxabs(&pj).max(1e-300), "precision_symmetric", class, || format!("precision {} asymmetric by {:e}", j, pas));
+        }
+    }
+}
+
+/// the "valid probabilities" half, on the output of predict_proba / predict
+fn oracle_proba(ctx: &mut Ctx, class_of: &dyn Fn(usize) -> String, queries: &Array2<f64>, p: &Array2<f64>, labels: Option<&Array1<usize>>) {
+    for i in 0..p.nrows() {
+        let class = class_of(i);
+        let row = p.row(i);
+        let fin = row.iter().all(|v| v.is_finite());
+        ctx.require(fin, "proba_finite", &class, || format!("predict_proba({:?}) = {:?}", queries.row(i).to_vec(), row.to_vec()));
+        if !fin {
+            continue;
+        }
+        ctx.require(row.iter().all(|v| *v >= 0.0), "proba_nonneg", &class, || format!("predict_proba({:?}) = {:?}", queries.row(i).to_vec(), row.to_vec()));
+        let s: f64 = row.iter().sum();
+        ctx.require((s - 1.0).abs() <= 1e-9, "proba_sum_one", &class, || format!("predict_proba({:?}) = {:?} sums to {:e}", queries.row(i).to_vec(), row.to_vec(), s));
+        if let Some(l) = labels {
+            let mx = row.iter().cloned().fold(f64::NEG_INFINITY, f64::max);
+            ctx.require(l[i] < row.len() && row[l[i]] == mx, "predict_is_argmax", &class, || format!("predict({:?}) = {} but probabilities {:?}", queries.row(i).to_vec(), l[i], row.to_vec()));
+        }
+    }
+}
+
+fn margin_of(p: &Array2<f64>) -> f64 {
+    let mut m = f64::INFINITY;
+    for row in p.rows() {
+        let mut top = f64::NEG_INFINITY;
+        let mut second = f64::NEG_INFINITY;
+        for v in row.iter() {
+            if *v > top {
+                second = top;
+                top = *v;
+            } else if *v > second {
+                second = *v;
+            }
+        }
+        let g = if row.len() == 1 { top } else { top - second };
+        if !(g >= m) {
+            m = g;
+        }
+    }
+    m
+}
+
+// ---------------------------------------------------------------- ops
+
+fn params_str(w: &Array1<f64>, mu: &Array2<f64>, pc: &Array3<f64>) -> String {
+    format!("w={} mu={} pc={}", v1(w), m2(mu), m3(pc))
+}
+
+fn op_estep(em: &mut Em, g: &Gmm, x: &Array2<f64>) {
+    let op = format!("estep {} x={}", params_str(g.weights(), g.means(), hk::precisions_chol(g)), m2(x));
+    em.case_valid(op, "estep", |ctx| {
+        let (lpn, lr) = hk::estimate_log_prob_resp(g, x);
+        // oracle: responsibilities exp(log_resp) are probabilities
+        let p = lr.mapv(f64::exp);
+        oracle_proba(ctx, &|_| "query=train".to_string(), x, &p, None);
+        format!("ok lpn={} lr={} margin=~0000000000000000", v1t(&lpn), m2t(&lr))
+    });
+}
+
+fn op_mstep(em: &mut Em, tag: &str, x: &Array2<f64>, resp: &Array2<f64>, reg: f64) {
+    let op = format!("mstep reg={} x={} r={}", hex64(reg), m2(x), m2(resp));
+    let class = format!("mstep:{}", tag);
+    let rows_ok = resp.rows().into_iter().all(|r| (r.iter().sum::<f64>() - 1.0).abs() <= 1e-9 && r.iter().all(|v| *v >= 0.0));
+    em.case_valid(op, &class, |ctx| {
+        match hk::estimate_gaussian_parameters(x, resp, reg) {
+            Ok((nk, mu, cov)) => {
+                let w = &nk / x.nrows() as f64;
+                if rows_ok {
+                    // any M-step on responsibilities is a valid mixture (precisions need the Cholesky step)
+                    oracle_params(ctx, &class, false, x, reg, &w, &mu, &cov, None);
+                }
+                let (dg, cc) = diag_corr(&cov);
+                format!("ok nk={} w={} mu={} covdiag={} covcorr={}", v1(&nk), v1(&w), m2t(&mu), dg, cc)
+            }
+            Err(GmmError::EmptyCluster(_)) => {
+                // the guard must only fire on a (numerically) empty column
+                let emptied = (0..resp.ncols()).any(|j| resp.column(j).iter().sum::<f64>() < 1e-14);
+                ctx.require(emptied, "empty_cluster_error", &class, || "EmptyCluster reported although every column of the responsibilities has mass".to_string());
+                "err EmptyCluster".to_string()
+            }
+            Err(e) => format!("err other:{}", hexstr(&e.to_string())),
+        }
+    });
+}
+
+fn op_prec(em: &mut Em, pc: &Array3<f64>) {
+    let op = format!("prec pc={}", m3(pc));
+    em.case_valid(op, "prec", |_ctx| {
+        let p = hk::compute_precisions_full(pc);
+        let (dg, cc) = diag_corr(&p);
+        format!("ok pdiag={} pcorr={}", dg, cc)
+    });
+}
+
+fn op_proba(em: &mut Em, g: &Gmm, queries: &Array2<f64>, far: &[u32]) {
+    let ps = params_str(g.weights(), g.means(), hk::precisions_chol(g));
+    let class_of = |i: usize| if far[i] == 0 { "query=near".to_string() } else { format!("query=far:1e{}", far[i]) };
+    let op = format!("proba {} x={}", ps, m2(queries));
+    em.case_valid(op, "proba", |ctx| {
+        let p = g.predict_proba(queries);
+        oracle_proba(ctx, &class_of, queries, &p, None);
+        format!("ok p={} margin=~0000000000000000", m2t(&p))
+    });
+    let op = format!("predict {} x={}", ps, m2(queries));
+    em.case_valid(op, "predict", |ctx| {
+        let lab: Array1<usize> = g.predict(queries);
+        let p = g.predict_proba(queries);
+        oracle_proba(ctx, &class_of, queries, &p, Some(&lab));
+        format!("ok lab={} margin={}", list(lab.iter(), |v| v.to_string()), th(margin_of(&p)))
+    });
+}
+
+// ---------------------------------------------------------------- generators
+
+struct FitCfg {
+    k: usize,
+    init: GmmInitMethod,
+    reg: f64,
+    tol: f64,
+    runs: u64,
+    iters: u64,
+    seed: u64,
+}
+
+fn do_fit(cfg: &FitCfg, x: &Array2<f64>) -> std::thread::Result<Result<Gmm, GmmError>> {
+    catch_unwind(AssertUnwindSafe(|| {
+        let ds = DatasetBase::from(x.clone());
+        GaussianMixtureModel::params_with_rng(cfg.k, Xoshiro256Plus::seed_from_u64(cfg.seed))
+            .init_method(cfg.init)
+            .reg_covariance(cfg.reg)
+            .tolerance(cfg.tol)
+            .n_runs(cfg.runs)
+            .max_n_iterations(cfg.iters)
+            .fit(&ds)
+    }))
+}
+
+fn err_kind(e: &GmmError) -> &'static str {
+    match e {
+        GmmError::InvalidValue(_) => "InvalidValue",
+        GmmError::LinalgError(_) => "LinalgError",
+        GmmError::EmptyCluster(_) => "EmptyCluster",
+        GmmError::LowerBoundError(_) => "LowerBoundError",
+        GmmError::NotConverged(_) => "NotConverged",
+        GmmError::KMeansError(_) => "KMeansError",
+        GmmError::LinfaError(_) => "LinfaError",
+        GmmError::MinMaxError(_) => "MinMaxError",
+    }
+}
+
+fn far_queries(rng: &mut Rng, g: &Gmm, x: &Array2<f64>, nq_near: usize) -> (Array2<f64>, Vec<u32>) {
+    let d = x.ncols();
+    let k = g.means().nrows();
+    // sigma: the largest marginal standard deviation of any component
+    let mut sig = 0.0f64;
+    for j in 0..k {
+        for a in 0..d {
+            sig = sig.max(g.covariances()[[j, a, a]].abs().sqrt());
+        }
+    }
+    if !(sig.is_finite() && sig > 0.0) {
+        sig = 1.0;
+    }
+    let mut rows: Vec<Vec<f64>> = vec![];
+    let mut far: Vec<u32> = vec![];
+    for _ in 0..nq_near {
+        match rng.below(3) {
+            0 => rows.push(x.row(rng.below(x.nrows())).to_vec()),
+            1 => {
+                // between two component means
+                let (a, b) = (rng.below(k), rng.below(k));
+                let t = rng.unit();
+                rows.push((0..d).map(|c| q(g.means()[[a, c]] * t + g.means()[[b, c]] * (1.0 - t))).collect());
+            }
+            _ => {
+                let a = rng.below(k);
+                rows.push((0..d).map(|c| q(g.means()[[a, c]] + 3.0 * sig * gauss(rng))).collect());
+            }
+        }
+        far.push(0);
+    }
+    // spread of the means, so that "t sigma away" is measured from every component
+    let mut spread = 0.0f64;
+    for a in 0..k {
+        for b in 0..k {
+            let dd: f64 = (0..d).map(|c| (g.means()[[a, c]] - g.means()[[b, c]]).powi(2)).sum();
+            spread = spread.max(dd.sqrt());
+        }
+    }
+    for e in 1..=6u32 {
+        let t = 10f64.powi(e as i32);
+        let j = rng.below(k);
+        let mut u: Vec<f64> = (0..d).map(|_| gauss(rng)).collect();
+        let nu = u.iter().map(|v| v * v).sum::<f64>().sqrt().max(1e-12);
+        for v in u.iter_mut() {
+            *v /= nu;
+        }
+        rows.push((0..d).map(|c| g.means()[[j, c]] + (t * sig + spread) * u[c]).collect());
+        far.push(e);
+    }
+    let n = rows.len();
+    (Array2::from_shape_fn((n, d), |(i, j)| rows[i][j]), far)
+}
+
+fn one_instance(em: &mut Em, rng: &mut Rng, big: bool) {
+    let d = 1 + rng.below(6);
+    let k = 1 + rng.below(if big { 6 } else { 4 });
+    let per = if big { 10 + rng.below(30) } else { 6 + rng.below(12) };
+    let mut b = gen_blobs(rng, d, k, per);
+    let rank_def = rng.chance(1, 25);
+    if rank_def {
+        // at most d points for one component and no regularisation: the exact covariance is singular
+        let m = 2 + rng.below(d);
+        b.x = b.x.slice(ndarray::s![..m.min(b.x.nrows()), ..]).to_owned();
+        b.kind = "rank_deficient";
+    }
+    let x = b.x;
+    let k_fit = if rank_def { 1 } else if rng.chance(1, 6) { (k + rng.below(2) + 1).min(x.nrows()) } else { k };
+    let cfg = FitCfg {
+        k: k_fit,
+        init: if rng.coin() { GmmInitMethod::KMeans } else { GmmInitMethod::Random },
+        reg: if rank_def { 0.0 } else { *rng.pick(&[0.0, 1e-6, 1e-6, 1e-3, 0.1, 1.0]) },
+        tol: *rng.pick(&[1e-2, 1e-3, 1e-3, 1e-6]),
+        runs: *rng.pick(&[1, 1, 2, 3]),
+        iters: *rng.pick(&[1, 4, 30, 100, 100, 100, 300, 300]),
+        seed: rng.next() % 1000,
+    };
+    let init_s = if cfg.init == GmmInitMethod::KMeans { "kmeans" } else { "random" };
+    em.count(&format!("data:{}", b.kind));
+    em.count(&format!("init:{}", init_s));
+    em.count(&format!("d:{}", d));
+    em.count(&format!("k:{}", cfg.k));
+    let res = do_fit(&cfg, &x);
+    let op = format!(
+        "#fit kind={} n={} d={} k={} init={} reg={:e} tol={:e} runs={} iters={} seed={}",
+        b.kind,
+        x.nrows(),
+        d,
+        cfg.k,
+        init_s,
+        cfg.reg,
+        cfg.tol,
+        cfg.runs,
+        cfg.iters,
+        cfg.seed
+    );
+    let class = format!("fit:init={}:data={}:reg={}", init_s, b.kind, if cfg.reg == 0.0 { "0" } else { "pos" });
+    let mut outcome = String::new();
+    em.case_valid(op, &class, |ctx| match &res {
+        Err(_) => panic!("fit panicked"),
+        Ok(Err(e)) => {
+            outcome = format!("fit_err:{}", err_kind(e));
+            format!("err {}", err_kind(e))
+        }
+        Ok(Ok(g)) => {
+            outcome = "fit_ok".to_string();
+            oracle_params(ctx, &class, true, &x, cfg.reg, g.weights(), g.means(), g.covariances(), Some(g.precisions()));
+            // precisions_chol is what prediction uses: it must be finite and reproduce precisions
+            ctx.require(all_finite(hk::precisions_chol(g).iter()), "params_finite", &class, || "non-finite precisions_chol".to_string());
+            "ok".to_string()
+        }
+    });
+    if !outcome.is_empty() {
+        em.count(&outcome);
+    }
+    let g = match res {
+        Ok(Ok(g)) => g,
+        _ => return,
+    };
+    if !(all_finite(g.weights().iter()) && all_finite(g.means().iter()) && all_finite(hk::precisions_chol(&g).iter())) {
+        return;
+    }
+    // E-step on (a prefix of) the training data, M-step on the responsibilities it yields
+    let m = x.nrows().min(if big { 40 } else { 16 });
+    let xs = x.slice(ndarray::s![..m, ..]).to_owned();
+    op_estep(em, &g, &xs);
+    let (_, lr) = hk::estimate_log_prob_resp(&g, &x);
+    let resp = lr.mapv(f64::exp);
+    if all_finite(resp.iter()) {
+        op_mstep(em, "fitted", &x, &resp, cfg.reg);
+    }
+    op_prec(em, hk::precisions_chol(&g));
+    let (qs, far) = far_queries(rng, &g, &x, 6);
+    proba_lines(em, &g, &qs, &far);
+}
+
+/// near queries in one request, every far query in its own (a far query between two nearly
+/// coincident components is ill-conditioned and its line is skipped by the comparison)
+fn proba_lines(em: &mut Em, g: &Gmm, qs: &Array2<f64>, far: &[u32]) {
+    let near: Vec<usize> = (0..far.len()).filter(|i| far[*i] == 0).collect();
+    if !near.is_empty() {
+        let q = qs.select(Axis(0), &near);
+        op_proba(em, g, &q, &vec![0; near.len()]);
+    }
+    for i in 0..far.len() {
+        if far[i] != 0 {
+            let q = qs.select(Axis(0), &[i]);
+            op_proba(em, g, &q, &[far[i]]);
+        }
+    }
+}
+
+/// M-step on hand-made responsibilities, incl. the EmptyCluster branch
+fn mstep_synthetic(em: &mut Em, rng: &mut Rng) {
+    let d = 1 + rng.below(4);
+    let k = 1 + rng.below(4);
+    let n = k + rng.below(14);
+    let x = Array2::from_shape_fn((n, d), |_| rng.range(-12, 12) as f64 / 2.0);
+    let mode = rng.below(5);
+    let (tag, resp): (&str, Array2<f64>) = match mode {
+        0 => {
+            // one-hot, every column hit (k-means like)
+            let mut r = Array2::zeros((n, k));
+            for i in 0..n {
+                let j = if i < k { i } else { rng.below(k) };
+                r[[i, j]] = 1.0;
+            }
+            ("onehot", r)
+        }
+        1 => {
+            // one-hot with an empty column -> EmptyCluster
+            let mut r = Array2::zeros((n, k));
+            let dead = rng.below(k);
+            for i in 0..n {
+                let mut j = rng.below(k);
+                if j == dead {
+                    j = (j + 1) % k;
+                }
+                r[[i, j]] = 1.0;
+            }
+            ("onehot_empty", r)
+        }
+        2 => {
+            // a column with negligible mass (below / above the 10*eps guard)
+            let mut r = Array2::zeros((n, k));
+            let tiny = *rng.pick(&[1e-18, 1e-17, 2.0f64.powi(-52), 1e-14]);
+            for i in 0..n {
+                let j = if k > 1 { 1 + rng.below(k - 1) } else { 0 };
+                r[[i, j]] = 1.0;
+            }
+            if k > 1 {
+                r[[0, 0]] = tiny;
+            }
+            ("tiny_column", r)
+        }
+        3 => {
+            // dyadic soft assignments
+            let mut r = Array2::zeros((n, k));
+            for i in 0..n {
+                let mut left = 8i64;
+                for j in 0..k {
+                    let v = if j + 1 == k { left } else { rng.range(0, left) };
+                    left -= v;
+                    r[[i, j]] = v as f64 / 8.0;
+                }
+            }
+            ("dyadic", r)
+        }
+        _ => {
+            // normalised uniforms (the Random initialiser)
+            let mut r = Array2::from_shape_fn((n, k), |_| rng.unit());
+            for i in 0..n {
+                let s: f64 = r.row(i).sum();
+                for j in 0..k {
+                    r[[i, j]] /= s;
+                }
+            }
+            ("random", r)
+        }
+    };
+    em.count(&format!("mstep:{}", tag));
+    let reg = *rng.pick(&[0.0, 1e-6, 0.25, 1.0]);
+    op_mstep(em, tag, &x, &resp, reg);
+}
+
+/// hand-made mixtures (no fit): identity / diagonal precisions, extreme weights, far queries
+fn proba_synthetic(em: &mut Em, rng: &mut Rng) {
+    let d = 1 + rng.below(3);
+    let k = 1 + rng.below(4);
+    let mut w = Array1::from_shape_fn(k, |_| 1.0 + rng.below(8) as f64);
+    if k > 1 && rng.chance(1, 3) {
+        w[0] = *rng.pick(&[1e-12, 1e-100, 1e-300]);
+    }
+    let s = w.sum();
+    w.mapv_inplace(|v| v / s);
+    let mu = Array2::from_shape_fn((k, d), |_| rng.range(-20, 20) as f64);
+    let mut pc = Array3::zeros((k, d, d));
+    let mut cov = Array3::zeros((k, d, d));
+    for j in 0..k {
+        for a in 0..d {
+            let e = rng.range(-3, 3);
+            pc[[j, a, a]] = 2f64.powi(e as i32);
+            cov[[j, a, a]] = 2f64.powi(-2 * e as i32);
+        }
+    }
+    let prec = hk::compute_precisions_full(&pc);
+    let g = hk::from_parts(w, mu, cov, prec, pc);
+    em.count("proba:synthetic");
+    let x = Array2::from_shape_fn((k, d), |(i, c)| g.means()[[i, c]]);
+    let (qs, far) = far_queries(rng, &g, &x, 4);
+    proba_lines(em, &g, &qs, &far);
+}
+
+pub fn run(em: &mut Em, rng: &mut Rng) {
+    let (fits, msteps, synth) = if em.thorough() { (5000, 5000, 2000) } else { (500, 800, 300) };
+    let deep = em.thorough();
+    for i in 0..fits {
+        one_instance(em, rng, deep && i % 4 == 0);
+    }
+    for _ in 0..msteps {
+        mstep_synthetic(em, rng);
+    }
+    for _ in 0..synth {
+        proba_synthetic(em, rng);
+    }
+}
